@@ -40,6 +40,11 @@ CHECKS = {
    technique="TLA+ model of the 4-level type grammar as a recursive-descent machine, two printers and the Go mapping (FoTypeExpr.tla); TLC checks parse(print(t)) = t on every enumerated term; the terms are written in every syntactic position, transpiled by the real fc, the Go types read back with go/parser and validated by TLC (FoTypeExprTrace.tla)",
    text="Type terms up to depth 2 (plus selected depth 3) over the base types, slices, 2/3-tuples, function types incl. unit argument/result, a generic user record and generic/plain external types are enumerated by TLC; for both a minimal-parentheses and a redundant-parentheses printer TLC checks that the grammar machine parses the text back to the same term, and validates the Go type that the real fc emits for the text in each of the 5 positions against the documented mapping. Exhaustive under the bound.",
    note="Trusted: go/parser + go/printer normalisation (white space removed on both sides); the renderer placing a type text into each position; the universe bound (depth 2 with one deep component per constructor)."),
+ "C11": dict(
+   category="model_checking", design_ref="4.11", engine="FoLiteral",
+   technique="TLA+ specification of literal denotation and of the implementation pipeline (scanner, ParseSInterP, Go string syntax, Sprintf) in FoLiteral.tla; TLC checks pipeline = denotation on every enumerated literal; literals are transpiled by the real fc, compiled and run, and the resulting bytes validated by TLC (FoLiteralTrace.tla)",
+   text="A literal is an abstract sequence of segments (plain character, escape, brace escape, hole) in one of the 4 forms; its source text and its documented value are both derived in TLA+. TLC checks a stage-by-stage model of the implementation against the denotation for all legal literals up to 2 (quick) / 3 (thorough) segments over a critical alphabet, and validates the bytes that the emitted Go program really computes for those literals, for every printable ASCII and several multi-byte characters in each form, for int/string/bool holes in all placements, and for seeded random bodies up to 40 segments.",
+   note="Trusted: the renderer and the byte-to-character-name decoder; hole values are an int, a string containing % and a bool; bodies that are not literals of the form are not generated; Go compile errors are attributed to the literal function containing the reported line."),
 }
 
 def cmd(pid, tier):
